@@ -167,6 +167,9 @@ def main(argv=None):
           f'violations={violations} known={sum(len(v) for v in known_hits.values())} '
           f'exhaustive={cov["exhaustive"]} wall={ev["wall_s"]}s cpu={cov["cpu_s"]}s')
     print('  classes:', dict(sorted(S.classes.items())))
+    if S.fails:
+        from collections import Counter
+        print('  failing clauses (recorded cases):', dict(Counter(f['fails'][0][0] for f in S.fails)))
     if S.harness_errors or S.determinism_mismatch:
         return 2
     if S.evaluations == 0:
